@@ -561,10 +561,13 @@ func (rt *Runtime) runStmt(ctx context.Context, key string, idx int, sp *StmtPro
 			for i, v := range op.Row {
 				vals[i] = v.Go()
 			}
-			rt.K.Yield(c.task, "op.row")
-			err := w.Row(vals)
-			last = err
-			c.rec("op", fmt.Sprintf("%d row %s", oi, errClass(err)))
+			// (N > 1: the same row N times - long results)
+			for n := 0; n == 0 || n < op.N; n++ {
+				rt.K.Yield(c.task, "op.row")
+				err := w.Row(vals)
+				last = err
+				c.rec("op", fmt.Sprintf("%d row %s", oi, errClass(err)))
+			}
 		case "written":
 			c.rec("op", fmt.Sprintf("%d written %d", oi, w.Written()))
 		case "complete":
@@ -664,6 +667,11 @@ func (rt *Runtime) runStmt(ctx context.Context, key string, idx int, sp *StmtPro
 			}
 		case "ctx":
 			rt.inspectCtx(c, ctx, "op")
+		case "cancel":
+			if c.cancelSession != nil {
+				c.cancelSession()
+			}
+			c.rec("op", fmt.Sprintf("%d cancel", oi))
 		case "yield":
 			rt.K.Yield(c.task, "op.yield")
 			c.rec("op", fmt.Sprintf("%d yield", oi))
